@@ -53,7 +53,7 @@ let nf_ctx_of fx a =
     cx_volatile = (num a "vol" 0 <> 0); cx_glob_en = (num a "gen" 1 <> 0); cx_ck_en = (num a "cen" 1 <> 0);
     cx_downtime = (num a "dt" 0 <> 0); cx_acked = (num a "ack" 0 <> 0); cx_reachable = (num a "reach" 1 <> 0);
     cx_flapping = (num a "flap" 0 <> 0); cx_ck_supp_problem = (num a "cks" 0 <> 0); cx_paused = (num a "paused" 0 <> 0);
-    cx_ha = false; cx_auth = (num a "auth" 1 <> 0); cx_per_closed = fx.fx_per && (num a "per" 0 <> 0);
+    cx_ha = (num a "ha" 0 <> 0); cx_auth = (num a "auth" 1 <> 0); cx_per_closed = fx.fx_per && (num a "per" 0 <> 0);
     cx_has_cr = (cr >= 0); cx_cr_ok = (cr = 1); cx_soon = (num a "soon" 0 <> 0) }
 
 let nf_new_fix a =
@@ -100,7 +100,7 @@ let nf_do name o =
   let fx = !nf_fx in
   let r = nf_step fx.fx_cfg fx.fx_st o in
   fx.fx_st <- fst r;
-  emit (nf_line name r)
+  emit (nf_line (match o with NfRequest (_, _, ty, _) -> name ^ " rq=" ^ zs (nf_type_bit ty) | _ -> name) r)
 
 (* ---------------- oracle: the extracted statement of C03 over the IMPLEMENTATION's observations ---------------- *)
 let nf_parse_evs s =
@@ -157,7 +157,7 @@ let oracle_c03_case script trace =
     (match nf_oracle (!fx).fx_cfg (List.rev !steps) with
      | (Some (idx, code), _) -> Some (Printf.sprintf "op=%s rule=%s class=delivery-rule" (zs idx) (zs code))
      | (None, Some (idx, code)) ->
-       Some (Printf.sprintf "op=%s class=%s" (zs idx) (if int_of_z code = 101 then "nomore-reset" else "unknown-finding-code"))
+       Some (Printf.sprintf "op=%s class=%s" (zs idx) (match int_of_z code with 101 -> "nomore-reset" | 100 -> "stale-after-disabled-recovery" | _ -> "unknown-finding-code"))
      | (None, None) -> None)
 
 let () =
